@@ -220,7 +220,7 @@ func worker(scenarios []Scenario, sh string, budget time.Duration) {
 		if sc.Schedules > 0 {
 			stopEvery = 1
 		}
-		stats := vrt.Explore(vrt.Options{MaxBound: bound, Cache: true, Delay: sc.Delay, MaxSteps: sc.MaxSteps, StopEvery: stopEvery, Stop: func() bool {
+		stats := vrt.Explore(vrt.Options{MaxBound: bound, Cache: true, Delay: sc.Delay, MaxSteps: sc.MaxSteps, StopEvery: stopEvery, Abort: func() bool { return time.Now().After(scDeadline.Add(20 * time.Second)) }, Stop: func() bool {
 			return (sc.Schedules > 0 && famRuns >= sc.Schedules) || time.Now().After(scDeadline) || atomic.LoadInt32(&overMem) != 0
 		}},
 			body, func(x *vrt.Exec) bool {
@@ -282,7 +282,7 @@ func worker(scenarios []Scenario, sh string, budget time.Duration) {
 			if budget > 5*time.Minute { // the thorough tier
 				limit2 = 2000000
 			}
-			st2 := vrt.Explore(vrt.Options{MaxBound: bound, Cache: false, Delay: sc.Delay, MaxSteps: sc.MaxSteps, Stop: func() bool { return n2 > limit2 || time.Now().After(scDeadline) }},
+			st2 := vrt.Explore(vrt.Options{MaxBound: bound, Cache: false, Delay: sc.Delay, MaxSteps: sc.MaxSteps, Abort: func() bool { return time.Now().After(scDeadline.Add(20 * time.Second)) }, Stop: func() bool { return n2 > limit2 || time.Now().After(scDeadline) }},
 				body, func(x *vrt.Exec) bool {
 					n2++
 					if f := judge(x); f != nil && !known[strings.ReplaceAll(f.Sig, " ", "_")] {
